@@ -31,8 +31,8 @@ void __tsan_write_range(void *a, unsigned long n) { access_yield(a, (int)n, 1, -
 
 #define ATOMICS(bits, T) \
 	T __tsan_atomic##bits##_load(const volatile T *a, morder mo) { access_yield((const void *)a, bits / 8, 0, mo); return __atomic_load_n(a, __ATOMIC_SEQ_CST); } \
-	void __tsan_atomic##bits##_store(volatile T *a, T v, morder mo) { access_yield((const void *)a, bits / 8, 1, mo); __atomic_store_n(a, v, __ATOMIC_SEQ_CST); } \
-	T __tsan_atomic##bits##_exchange(volatile T *a, T v, morder mo) { access_yield((const void *)a, bits / 8, 3, mo); return __atomic_exchange_n(a, v, __ATOMIC_SEQ_CST); } \
+	void __tsan_atomic##bits##_store(volatile T *a, T v, morder mo) { simk::g_access_value = (uint64_t)v; access_yield((const void *)a, bits / 8, 1, mo); __atomic_store_n(a, v, __ATOMIC_SEQ_CST); } \
+	T __tsan_atomic##bits##_exchange(volatile T *a, T v, morder mo) { simk::g_access_value = (uint64_t)v; access_yield((const void *)a, bits / 8, 3, mo); return __atomic_exchange_n(a, v, __ATOMIC_SEQ_CST); } \
 	T __tsan_atomic##bits##_fetch_add(volatile T *a, T v, morder mo) { access_yield((const void *)a, bits / 8, 3, mo); return __atomic_fetch_add(a, v, __ATOMIC_SEQ_CST); } \
 	T __tsan_atomic##bits##_fetch_sub(volatile T *a, T v, morder mo) { access_yield((const void *)a, bits / 8, 3, mo); return __atomic_fetch_sub(a, v, __ATOMIC_SEQ_CST); } \
 	T __tsan_atomic##bits##_fetch_and(volatile T *a, T v, morder mo) { access_yield((const void *)a, bits / 8, 3, mo); return __atomic_fetch_and(a, v, __ATOMIC_SEQ_CST); } \
